@@ -1150,3 +1150,79 @@ func c14RenameWord(s, from, to string) string {
 	}
 	return string(out)
 }
+
+// ---------------------------------------------------------------------------
+// Modular dispatch (fourth round)
+
+// c14AtLeastOne: the branch outcome (cond, outcome) states that the slice held
+// in field fld of the object rendered as base has at least one element:
+// len(base.fld) > k (k >= 0), >= k (k >= 1), != 0 or == k (k >= 1), in any
+// spelling (CmpFact removes negations, else-branches and mirrored operands). A
+// test of nil-ness, of another field or of another object is not such a fact:
+// an empty but non-nil slice is not nil and still has no element.
+func c14AtLeastOne(tm *Termer, cond ssa.Value, outcome bool, base string, fld *types.Var) bool {
+	x, y, op, ok := CmpFact(cond, outcome)
+	if !ok {
+		return false
+	}
+	isLen := func(v ssa.Value) bool {
+		t := c14T(tm, v)
+		return t != nil && t.Op == "len" && len(t.Args) == 1 && t.Args[0].Op == "field" && t.Args[0].Obj == types.Object(fld) &&
+			len(t.Args[0].Args) == 1 && t.Args[0].Args[0].String() == base
+	}
+	intOf := func(v ssa.Value) (int64, bool) {
+		k, isC := c14Canon(v).(*ssa.Const)
+		if !isC || k.Value == nil || k.Value.Kind() != constant.Int {
+			return 0, false
+		}
+		return constant.Int64Val(k.Value)
+	}
+	if !isLen(x) {
+		return false
+	}
+	n, isK := intOf(y)
+	if !isK {
+		return false
+	}
+	switch op {
+	case token.GTR:
+		return n >= 0
+	case token.GEQ, token.EQL:
+		return n >= 1
+	case token.NEQ:
+		return n == 0 // a length is never negative
+	}
+	return false
+}
+
+// c14GuardedByElems: the outcomes that dominate block b (closed under boolean
+// merges: flags, `a && b` values, results of predicates expanded in place)
+// include the fact that base.fld has at least one element.
+func c14GuardedByElems(tm *Termer, b *ssa.BasicBlock, base string, fld *types.Var) bool {
+	for _, g := range c14Implied(Guards(b)) {
+		if c14AtLeastOne(tm, g.Cond, g.True, base, fld) {
+			return true
+		}
+	}
+	return false
+}
+
+// HasElems: the path established that base.fld has at least one element.
+func (p *c14Path) HasElems(tm *Termer, base string, fld *types.Var) bool {
+	found := false
+	p.EachCond(func(c ssa.Value, o bool, _ int) {
+		if c14AtLeastOne(tm, c, o, base, fld) {
+			found = true
+		}
+	})
+	return found
+}
+
+// Describe renders the blocks of the path (witness of a failing obligation).
+func (p *c14Path) Describe(pr *Prog) []string {
+	var out []string
+	for _, b := range p.Blocks {
+		out = append(out, describeBlock(pr, b, nil))
+	}
+	return out
+}
